@@ -113,6 +113,7 @@ pub fn sumhist(input: &Value) -> Out {
     let steps = input["steps"].as_array().unwrap();
     let mut sums = [Summary::new(), Summary::new(), Summary::new()];
     let (mut snaps, mut texts, mut done) = (vec![], vec![], vec![]);
+    let (mut pb, mut pv, mut desc) = (vec![], vec![], vec![]);
     let mut same = true;
     for st in steps {
         let (kind, v, x) = (st[0].as_str().unwrap(), st[1].as_u64().unwrap(), &st[2]);
@@ -124,9 +125,13 @@ pub fn sumhist(input: &Value) -> Out {
         snaps.push(snapshot(&sums[0]));
         texts.push(codes(&t));
         done.push(tf(sums[0].is_completed()));
+        // accessors derived from the current values, queried after every call
+        pb.push(opt_codes(sums[0].pkgbase()));
+        pv.push(opt_codes(sums[0].pkgversion()));
+        desc.push(match sums[0].description_as_str() { Some(d) => json!([codes(&d)]), None => json!([]) });
     }
     let last = sums[0].to_string();
-    let mut o = json!({"ok": "T", "snaps": snaps, "texts": texts, "done": done, "stable": tf(same)});
+    let mut o = json!({"ok": "T", "snaps": snaps, "texts": texts, "done": done, "stable": tf(same), "pb": pb, "pv": pv, "desc": desc});
     // accessors derived from PKGNAME and the joined description must not panic either
     let _ = (sums[0].pkgbase(), sums[0].pkgversion(), sums[0].description_as_str());
     o["reparse"] = parse_result(&last);
